@@ -1,5 +1,5 @@
 #!/usr/bin/env python3
-"""run checks against behaviour-preserving changes (benign/<id>/patch.diff): every check must stay quiet (exit 0).
+"""run the checks of the affected area against behaviour-preserving changes (benign/<id>/patch.diff): every check must stay quiet (exit 0).
 tools/benignrun.py [-j N] [ids...]   results are merged into benign/results.json"""
 import json, os, subprocess, sys, time
 from concurrent.futures import ThreadPoolExecutor
@@ -8,12 +8,12 @@ args = sys.argv[1:]
 J = 4
 if args and args[0] == '-j':
     J = int(args[1]); args = args[2:]
-AREA = {'B1': ['C06', 'C07', 'C10', 'C11', 'C12', 'C01'],
-        'B2': ['C07', 'C09', 'C14', 'C01', 'C02', 'C05', 'C16', 'C06'],
-        'B3': ['C01', 'C02', 'C03', 'C04', 'C05', 'C08', 'C15', 'C16', 'C17', 'C18', 'C09'],
-        'B4': ['C13', 'C17', 'C10', 'C18', 'C03', 'C04', 'C01', 'C15']}
+CHECKS = {'B1-b1': ['C10', 'C11', 'C06', 'C01'], 'B1-b2': ['C12', 'C10'], 'B1-b3': ['C11', 'C06', 'C10'],
+          'B2-b1': ['C09', 'C01', 'C02', 'C14', 'C16', 'C05'], 'B2-b2': ['C07', 'C01'], 'B2-b3': ['C07', 'C09', 'C14'],
+          'B3-b1': ['C01', 'C02', 'C08', 'C16'], 'B3-b2': ['C01', 'C02', 'C03', 'C16', 'C04', 'C15'], 'B3-b3': ['C04', 'C05', 'C15', 'C01', 'C18'],
+          'B4-b1': ['C13', 'C10', 'C17'], 'B4-b2': ['C17', 'C04', 'C16', 'C03', 'C18'], 'B4-b3': ['C10', 'C18']}
 ids = args or sorted(d for d in os.listdir(os.path.join(V, 'benign')) if os.path.isdir(os.path.join(V, 'benign', d)))
-jobs = [(b, c) for b in ids for c in AREA[b.split('-')[0]]]
+jobs = [(b, c) for b in ids for c in CHECKS[b]]
 def run(job):
     b, c = job
     t = time.time()
